@@ -160,7 +160,7 @@ func C06(tier string) {
 	nGen, procs, repeats := 2, 3, 2
 	gmps := []int{1, 4, 16}
 	if tier == "thorough" {
-		nGen, procs, repeats = 12, 8, 5
+		nGen, procs, repeats = 5, 5, 3
 		gmps = []int{1, 2, 4, 16}
 	}
 	if tier == "smoke" {
@@ -253,8 +253,8 @@ func C06(tier string) {
 		}
 	}
 	if tier == "thorough" {
-		addReal("taint", nil, false)
-		addReal("backtrace", nil, true)
+		addReal("taint", []string{"basic", "closures", "globals", "interfaces", "fields", "parameters", "defers", "tuples", "selects", "validators"}, false)
+		addReal("backtrace", []string{"closures", "backtrace", "basic", "globals", "fields", "interfaces"}, true)
 	} else if tier != "smoke" {
 		addReal("taint", []string{"closures", "globals"}, false)
 		addReal("backtrace", []string{"closures", "backtrace"}, true)
